@@ -602,8 +602,25 @@ class Built:
                 return funcs[c][0]
             return None
 
+        if d.get("shadow_attr"):
+            attrs["tag_shadow"] = ""      # a class-level default that instances override (Runner api set_attr)
         # states, with inline enter/exit references
+        if d.get("states_enum"):
+            # States.from_enum over an Enum class that several machine classes of the scenario share
+            from statemachine.states import States
+            enums = rt.__dict__.setdefault("enums", {})
+            key = (d["states_enum"], tuple(s["id"] for s in d["states"]))
+            if key not in enums:
+                enums[key] = enum.Enum("E_" + d["states_enum"], {s["id"]: k + 1 for k, s in enumerate(d["states"])})
+            E = enums[key]
+            sts = States.from_enum(E, initial=[E[s["id"]] for s in d["states"] if s["initial"]][0],
+                                   final=[E[s["id"]] for s in d["states"] if s["final"]], use_enum_instance=False)
+            attrs["_sts"] = sts
+            for s in d["states"]:
+                states[s["id"]] = getattr(sts, s["id"])
         for s in d["states"]:
+            if d.get("states_enum"):
+                break
             if s.get("inherited"):
                 states[s["id"]] = getattr(self.base.cls, s["id"])   # the base's State object itself
                 continue
@@ -824,7 +841,7 @@ class Runner:
                 # (a machine whose constructor is still running - its callbacks may already talk to other machines -
                 # cannot be read yet)
                 out.append({"cur": "", "state": "ctor" if j == getattr(self, "constructing", 0) else "none",
-                            "allowed": [], "active": [], "events": [], "modelok": True})
+                            "allowed": [], "active": [], "events": [], "modelok": True, "tag": ""})
                 continue
             k = self.cls_of[j]
             raw = getattr(sm.model, sm.state_field, None)
@@ -842,9 +859,13 @@ class Runner:
             if sm.current_state_value is not raw and sm.current_state_value != raw:
                 state = "mismatch"
             um = self.user_models.get(j)
+            # user data on the machine object: one attribute with no namesake on the class, one that shadows a class-level
+            # default; both hold the same tag
+            plain, shadow = getattr(sm, "tag_plain", ""), getattr(sm, "tag_shadow", "")
             out.append({"cur": cur, "state": state, "allowed": allowed, "active": active,
                         "events": [str(e) for e in sm.events],
-                        "modelok": True if um is None else (sm.model is um)})
+                        "modelok": True if um is None else (sm.model is um),
+                        "tag": plain if plain == shadow else f"plain={plain!r} shadow={shadow!r}"})
         return out
 
     def exc_rec(self, k, e):
@@ -1041,6 +1062,10 @@ class Runner:
                 r = None
             elif api == "write_model":
                 setattr(sm.model, sm.state_field, self.value_of(k, step["v"]))
+                r = None
+            elif api == "set_attr":
+                sm.tag_plain = step["v"]
+                sm.tag_shadow = step["v"]      # the class defines tag_shadow = "" (definitions with shadow_attr)
                 r = None
             elif api == "add_listener":
                 objs = []
